@@ -147,6 +147,8 @@ class SecureServer:
         return ipsec.wrap(key or self.key, self.session_id if session_id is None else session_id, seq.to_bytes(6, "big"), SERVER_SERIAL, b"\x00\x00", plain)
 
     def send_wrapped_raw(self, plain: bytes, delay: float = 0.0, **kw: Any) -> None:
+        if self.key is None and "key" not in kw:
+            return   # no session on this connection (yet): the server has nothing to wrap with
         self.send_raw(self.wrap(plain, **kw), delay)
 
     def send(self, body: Any, delay: float = 0.0, **kw: Any) -> None:
